@@ -49,6 +49,10 @@ impl<R: Read + Seek> ReadBox<&mut R> for DinfBox {
             // Get box header.
             let header = BoxHeader::read(reader)?;
             let BoxHeader { name, size: s } = header;
+            // Break if size zero BoxHeader, which can result in dead-loop.
+            if s == 0 {
+                break;
+            }
             if s > size {
                 return Err(Error::InvalidData(
                     "dinf box contains a box with a larger size than it",
@@ -161,6 +165,10 @@ impl<R: Read + Seek> ReadBox<&mut R> for DrefBox {
             // Get box header.
             let header = BoxHeader::read(reader)?;
             let BoxHeader { name, size: s } = header;
+            // Break if size zero BoxHeader, which can result in dead-loop.
+            if s == 0 {
+                break;
+            }
             if s > size {
                 return Err(Error::InvalidData(
                     "dinf box contains a box with a larger size than it",
